@@ -278,7 +278,9 @@ Record graph_case := mkGraphCase {
   gc_site : cmode;                 (* what the generated table says about the site used *)
   gc_observed : list obj;
   gc_shared_mem : nat;
-  gc_changed : nat
+  gc_changed : nat;
+  gc_lost : nat                    (* value paths of the caller's detector (memory, trapped charge, bucket
+                                      contents ...) that the copy's detector does not hold with the same value *)
 }.
 
 Definition model_block (pol : policy) (c : graph_case) : option (list obj) :=
@@ -294,12 +296,12 @@ Definition graph_agrees (pol : policy) (c : graph_case) : bool :=
   end.
 
 (* SPEC: the copy shares no mutable object and no array memory with the caller's graph, it is not
-   empty, and the caller's objects kept their values *)
+   empty, the caller's objects kept their values, and the copy's detector lost nothing *)
 Definition graph_spec (c : graph_case) : bool :=
   let n := length (gc_heap c) in
   negb (Nat.eqb (length (gc_observed c)) 0) &&
   forallb (fun o => forallb (fun fr => Nat.leb n (snd fr)) (refs o)) (gc_observed c) &&
-  Nat.eqb (gc_shared_mem c) 0 && Nat.eqb (gc_changed c) 0.
+  Nat.eqb (gc_shared_mem c) 0 && Nat.eqb (gc_changed c) 0 && Nat.eqb (gc_lost c) 0.
 
 Fixpoint indices_where {A} (f : A -> bool) (l : list A) (i : nat) : list nat :=
   match l with
